@@ -476,6 +476,42 @@ fn run_via_start_once(spec: &Spec) -> Option<Vec<(String, String)>> {
     Some(v)
 }
 
+/// A client that has received its Transfer - its connection has run to its normal completion - does not hang up and
+/// keeps sending packets: the drain is still bounded by the connection timeout (2 s here), counted from the accept.
+fn client_that_keeps_talking_after_its_transfer() -> Vec<(String, String)> {
+    run_local(async {
+        let mut v = vec![];
+        let cfg = ListenerCfg { timeout: Duration::from_secs(2), ..Default::default() };
+        let running = start_listener(&cfg, NetAdapters::new()).await;
+        let t0 = Instant::now();
+        let Ok(mut c) = McClient::connect(running.addr, Some("127.0.0.2".parse().unwrap())).await else { return v };
+        let mut out = LoginOutcome { packets: vec![], stage: Stage::Connected, error: None };
+        c.login(&LoginParams { wait: Duration::from_secs(2), ..Default::default() }, Stage::Connected, Stage::Transferred, &mut out).await;
+        if out.stage != Stage::Transferred {
+            // (a slow machine: the 2 s were over before the login was; nothing to judge)
+            running.stop.cancel();
+            return v;
+        }
+        running.stop.cancel();
+        let talk = async {
+            loop {
+                let _ = c.send(&common::refs::codec::sb_keep_alive(1)).await;
+                tokio::time::sleep(Duration::from_millis(100)).await;
+            }
+        };
+        let bound = (Duration::from_millis(3_500)).saturating_sub(t0.elapsed());
+        tokio::select! {
+            r = tokio::time::timeout(bound, running.done) => {
+                if r.is_err() {
+                    v.push(("shutdown-not-bounded-by-connection-timeout:client-keeps-talking-after-its-transfer".into(), format!("a client that received its Transfer and then kept sending a packet every 100 ms without hanging up kept listen() from returning for more than {:?} after it connected; the connection timeout is 2 s", t0.elapsed())));
+                }
+            }
+            _ = talk => {}
+        }
+        v
+    })
+}
+
 pub fn run(cli: Cli) -> ! {
     // the backend panic of the fault schedules is part of the scenario: keep it out of the output
     let prev = std::panic::take_hook();
@@ -567,6 +603,14 @@ pub fn run(cli: Cli) -> ! {
             rep.violation(Violation { key: k, text: format!("{t}; schedule {}", serde_json::to_string(s).unwrap()), replay: json!({"spec": s}), weight: i as u64 });
         }
     });
+    // connections accepted before the stop that announce their source (PROXY header) only afterwards are in progress
+    // too: they are admitted or refused on the unchanged budget of the limiter (the histories of C15)
+    for (k, t, replay) in crate::c15::admission_while_stopping() {
+        rep.violation(Violation { key: format!("in-flight-connection-not-completed:{k}"), text: t, replay, weight: 900 });
+    }
+    for (k, t) in client_that_keeps_talking_after_its_transfer() {
+        rep.violation(Violation { key: k, text: t, replay: json!({"schedule": "client-keeps-talking-after-its-transfer"}), weight: 901 });
+    }
     rep.require("schedules with two connections in flight at stop time", two.load(Ordering::Relaxed), 7);
     rep.set("states", json!(specs.len()));
     rep.set("transitions", json!(specs.len()));
@@ -574,7 +618,7 @@ pub fn run(cli: Cli) -> ! {
     rep.set("evaluations", json!(specs.len()));
     rep.set("distinct_nontrivial", json!(specs.len()));
     rep.set("exhaustive", json!(true));
-    rep.set("rule", json!("placements of one or two in-flight connections over 7 progress points (accepted, handshake sent, login start sent, encryption request received, login success received, waiting for a gated backend, backend done but Transfer unread) x the moment a new connection is attempted (right after the stop, after A finished, after both finished); quick: single connections and equal pairs plus four mixed pairs, thorough: all 49 pairs; three schedules with a non-cooperating client and a 1 s connection timeout; three schedules through passage::start stopped by SIGINT; three schedules under a connection timeout too large for the clock; schedules in which a third in-flight connection ends badly during the drain (its backend panics or fails, it sends garbage, it hangs up) while the cooperating one must still complete. Each schedule is distinct."));
+    rep.set("rule", json!("placements of one or two in-flight connections over 7 progress points (accepted, handshake sent, login start sent, encryption request received, login success received, waiting for a gated backend, backend done but Transfer unread) x the moment a new connection is attempted (right after the stop, after A finished, after both finished); quick: single connections and equal pairs plus four mixed pairs, thorough: all 49 pairs; three schedules with a non-cooperating client and a 1 s connection timeout; three schedules through passage::start stopped by SIGINT; three schedules under a connection timeout too large for the clock; schedules in which a third in-flight connection ends badly during the drain (its backend panics or fails, it sends garbage, it hangs up) while the cooperating one must still complete; three histories (limiter + PROXY protocol) of connections accepted before the stop whose header arrives after it; a client that keeps sending after its Transfer under a 2 s connection timeout. Each schedule is distinct."));
     rep.sample(json!({"spec": specs[0]}));
     rep.sample(json!({"spec": specs[specs.len() - 1]}));
     rep.assume("the slow backend is a semaphore the harness opens (no real time); observations are taken at barriers with 2 s deadlines; a connection opened after the stop is 'not served' if it receives no byte within 300 ms");
